@@ -83,6 +83,30 @@ MUTANTS = [
     ('m26-cuda-setstate-forgets-s', ['C06'], 'wave_sim.py',
      "        self.__dict__.update(state)\n        self.c = cuda.to_device(self.c)\n        self.s = cuda.to_device(self.s)\n",
      "        self.__dict__.update(state)\n        self.c = cuda.to_device(self.c)\n        self.s = cuda.to_device(np.zeros_like(self.s))\n"),
+    ('m30-overflow-test-off-by-one', ['C03', 'C08'], 'wave_sim.py',
+     "                if z_cur < (z_cap - 1):  # enough space in z_mem?",
+     "                if z_cur <= (z_cap - 1):  # enough space in z_mem?"),
+    ('m34-capture-counts-tmin-marker', ['C13'], 'wave_sim.py',
+     "        if t < time:\n            val ^= 1\n        if t <= TMIN: continue\n        if s_sqrt2 > 0:\n            acc += m * (1 + math.erf((t - time) / s_sqrt2))\n        eat = min(eat, t)\n        lst = max(lst, t)\n        tog += 1\n    if s_sqrt2 > 0:\n        if m < 0:\n            acc += 1\n        if acc >= 0.99:\n            val = 1\n        elif acc > 0.01:\n            seed = (seed << 4) + (vector << 20) + c_loc",
+     "        if t < time:\n            val ^= 1\n        if t < TMIN: continue\n        if s_sqrt2 > 0:\n            acc += m * (1 + math.erf((t - time) / s_sqrt2))\n        eat = min(eat, t)\n        lst = max(lst, t)\n        tog += 1\n    if s_sqrt2 > 0:\n        if m < 0:\n            acc += 1\n        if acc >= 0.99:\n            val = 1\n        elif acc > 0.01:\n            seed = (seed << 4) + (vector << 20) + c_loc"),
+    ('m41-input-slots-not-pinned', ['C08'], 'sim.py',
+     "                ref_count[self.ppi_offset + i] += 1\n",
+     "                pass\n"),
+    ('m44-copy-uses-implicit-pins', ['C09', 'C10'], 'circuit.py',
+     "            Line(c, (d, line.driver_pin), (r, line.reader_pin))\n        for node in self.io_nodes:",
+     "            Line(c, d, r)\n        for node in self.io_nodes:"),
+    ('m45-getstate-sorts-ports', ['C09', 'C10'], 'circuit.py',
+     "        io_nodes = [n.index for n in self.io_nodes]",
+     "        io_nodes = sorted(n.index for n in self.io_nodes)"),
+    ('m46-node-remove-keeps-fork-lookup', ['C09'], 'circuit.py',
+     "            if self.kind == '__fork__':\n                del self.circuit.forks[self.name]\n            else:",
+     "            if self.kind == '__fork__':\n                pass\n            else:"),
+    ('m48-free-index-ignores-gaps', ['C09'], 'circuit.py',
+     "        return next((i for i, x in enumerate(self) if x is None), len(self))",
+     "        return len(self)"),
+    ('m49-cycle-callback-first-cycle-only', ['C16'], 'logic_sim.py',
+     "        for _ in range(cycles):\n            self.s_to_c()\n            self.c_prop(inject_cb)",
+     "        for _ in range(cycles):\n            self.s_to_c()\n            self.c_prop(inject_cb if _ == 0 else None)"),
     ('m18-capture-uses-le', ['C13', 'C06'], 'wave_sim.py',
      "        t = c[line + tidx, vector]\n        if t >= TMAX:\n            if t == TMAX_OVL:\n                ovl = 1\n            break\n        m = -m\n        final ^= 1\n        if t < time:",
      "        t = c[line + tidx, vector]\n        if t >= TMAX:\n            if t == TMAX_OVL:\n                ovl = 1\n            break\n        m = -m\n        final ^= 1\n        if t <= time:"),
